@@ -18,6 +18,7 @@
 EXTENDS TraceLib, FiniteSets
 R14 == INSTANCE RSS14
 T == INSTANCE RSSTally
+TX == INSTANCE RSSText
 VARIABLES l, bad, lefts, rights
 vars == <<l, bad, lefts, rights>>
 Init == l = 1 /\ bad = <<>> /\ lefts = <<>> /\ rights = <<>>
@@ -62,7 +63,7 @@ Judge(e, sts) ==
      ELSE IF early THEN "tally"
      ELSE IF e.err = 0 /\ ~answered THEN "tally"
      ELSE IF e.err = 1 /\ (answered \/ e.kind # "notfound") THEN "tally"
-     ELSE IF e.err = 0 /\ (e.text # T!AnswerText(sts[n].lefts[sts[n].ans[1]], sts[n].rights[sts[n].ans[2]]) \/ e.fmt # "RSS_14") THEN "tally"
+     ELSE IF e.err = 0 /\ (e.text # TX!AnswerText(sts[n].lefts[sts[n].ans[1]], sts[n].rights[sts[n].ans[2]]) \/ e.fmt # "RSS_14") THEN "tally"
      ELSE IF ~own THEN "ok"
      ELSE IF e.err = 0 /\ ~(LET sp == SpecPairs(e.ds) IN SamePair(sts[n].lefts[sts[n].ans[1]], sp[1]) /\ SamePair(sts[n].rights[sts[n].ans[2]], sp[2])) THEN "pairs"
      ELSE IF e.height >= 3 /\ Readable(e.runs, e.quiet) /\ (e.err = 1 \/ e.text # R14!Text(e.ds)) THEN "text"
